@@ -13,7 +13,12 @@ cleanup() { git -C /repo worktree remove --force "$WT" 2>/dev/null; }
 trap cleanup EXIT
 cd "$WT"
 PYTHONPATH="$WT" PYTHONDONTWRITEBYTECODE=1 /venv/bin/python "$SRC/demo.py" >/tmp/seedwt/$ID.demo0.log 2>&1; D0=$?
-if ! git apply --3way "$SRC/patch.diff" 2>/tmp/seedwt/$ID.apply.log; then echo "RESULT $ID apply=FAILED"; cat /tmp/seedwt/$ID.apply.log; exit 3; fi
+if ! git apply --3way "$SRC/patch.diff" 2>/tmp/seedwt/$ID.apply.log; then
+  git reset -q --hard HEAD
+  if ! patch -p1 -F3 --no-backup-if-mismatch < "$SRC/patch.diff" >/tmp/seedwt/$ID.apply.log 2>&1; then echo "RESULT $ID apply=FAILED"; cat /tmp/seedwt/$ID.apply.log; exit 3; fi
+  find . -name "*.orig" -delete
+  git diff > /tmp/seedwt/$ID.rebased.diff; echo "(patch rebased with fuzz onto current HEAD: /tmp/seedwt/$ID.rebased.diff)"
+fi
 git reset -q
 PYTHONPATH="$WT" PYTHONDONTWRITEBYTECODE=1 /venv/bin/python "$SRC/demo.py" >/tmp/seedwt/$ID.demo1.log 2>&1; D1=$?
 BL=$(/verif/tools/baseline.sh "$WT" 2>&1 | tail -1)
